@@ -1,19 +1,26 @@
 SPEC = dict(
     property='C14',
     level='other',
-    level_text='Bounded (labelled) on the real isotopic_distribution / merge_isotopic_distributions against an exact multinomial expansion '
+    level_text='Mixed. DEDUCTIVE (A-REAL, any number of peaks): the scaling step _scale_isotope_abundances -- the last step of every pattern -- is '
+               'proved to keep one peak per peak and every mass (rounded on request), to multiply each abundance by the requested abundance, '
+               'after dividing by the total when the total is requested, to raise ZeroDivisionError exactly for a non-empty pattern of total '
+               'zero; and from that, by induction on the number of peaks carried out inside the run (base and step are obligations): in sum '
+               'mode the total of the result EQUALS the requested abundance, in peak mode a pattern whose largest peak is 1 gets the requested '
+               'abundance as its largest peak and no larger one. BOUNDED (labelled) on the real isotopic_distribution / merge_isotopic_distributions against an exact multinomial expansion '
                'computed from the independent NIST isotope table: patterns are sorted by mass; the largest peak (or on request the total) '
                'equals the requested abundance; with no pruning the lightest peak sits at the monoisotopic mass incl. e/p/n entries and the '
                'abundance-weighted mean equals the average mass; the neutron-offset view is the mass view binned by nominal mass; peaks '
                'match the exact expansion for every composition with at most 12 atoms; merging adds abundances at equal masses; the formula '
                'argument is unchanged. The convolution works on dicts keyed by rounded floats -- floating-point numerics with rounding inside '
-               'the loop, outside what A-REAL contracts decide soundly (DESIGN section 6, C14): no deductive obligations in this revision.',
+               'the loop, outside what A-REAL contracts decide soundly (DESIGN section 6, C14): the convolution, centring and completeness clauses are bounded only.',
     level_note='oracle isotope masses / abundances typed in from NIST; comparison tolerances: atoms x 10^-resolution on masses, 1e-6 + 1e-4 relative on abundances.',
     design_ref='DESIGN.md section 6, C14',
-    technique='bounded run-time contract check against an exact multinomial expansion from an independent isotope table (labelled stand-in)',
+    contracts=['isoscale'],
+    technique='weakest-precondition VCs from the real AST of _scale_isotope_abundances against a sidecar contract, normalisation lemmas by induction (base / step obligations), discharged by z3 / cvc5; bounded run-time contract check against an exact multinomial expansion from an independent isotope table as labelled stand-in for the convolution',
     bounded=[dict(name='C14-bounded', script='bounded/C14.py')],
     replay_finder='bounded/C14.py',
-    explanation='bounded check only (numerical property)',
-    proved_clauses=[], bounded_clauses=['sorted; normalisation (peak / sum, requested abundance)', 'lightest peak and mean (no pruning)', 'neutron view', 'exact multinomial for <= 12 atoms', 'merge'],
-    uncovered_clauses=['multinomial exactness above 12 atoms'], assumptions=['oracle isotope table typed in from NIST'], trusted_base=['bounded/C14.py', 'specs/nist.py'],
+    explanation='normalisation step proved; convolution / centring / completeness bounded',
+    proved_clauses=['scaling: total == requested abundance (sum mode); largest peak == requested abundance for a pattern normalised to 1 (peak mode); masses kept'],
+    bounded_clauses=['sorted; the pattern handed to the scaling step is normalised to its largest peak', 'lightest peak and mean (no pruning)', 'neutron view', 'exact multinomial for <= 12 atoms', 'merge'],
+    uncovered_clauses=['multinomial exactness above 12 atoms'], assumptions=['A-REAL', 'SPEC-FOLD', 'LC-ROUND', 'oracle isotope table typed in from NIST'], trusted_base=['z3 5.1', 'cvc5 1.0.3', 'pyvc', 'bounded/C14.py', 'specs/nist.py'],
 )
